@@ -23,6 +23,7 @@ DevSets == <<{}, {DErrStop}, {DTTL}, {DErrStop, DTTL}>>
 NW == Len(DevSets)
 W0 == [ds |-> [k \in Keys |-> NoRec], rt |-> [k \in Keys |-> NoRec]]
 
+GLT_one == {<<3, 2>>}
 GLT_small == {<<3, 2>>, <<50, 10>>}
 GLT_full == {<<3, 2>>, <<3, 10>>, <<50, 2>>, <<50, 10>>, <<12, 10>>}
 
